@@ -1,11 +1,25 @@
-// Command surface computes the "declaration surface" of Go packages of the repository: everything that can change
-// the behaviour of the code a property is anchored in WITHOUT touching a function body pinned by that property's own
-// facts — the file set and build constraints, imports, every top-level type/var/const declaration (struct field types,
-// variable initialisers, constants), every function signature (receiver kind included), and the full bodies of
-// init functions and of constructors (New*/new*/build*/default*). bin/check compares it with the committed
-// expectation meta/surface/<Cxx>.json on every run; a difference is a broken tie obligation `Cxx:tie:surface:…`.
+// Command surface computes the "declaration surface" of the Go code a property is anchored in: everything that can
+// change its behaviour WITHOUT touching a function body pinned by the property's own facts.
 //
-//	surface <repo> <pkgdir>...   prints JSON {"<pkgdir>": {"<item>": "<sha1 of normalised source>"}}
+//	surface <repo> <arg>...      arg = "dir" (whole package) or "dir=a.go,b.go" (anchored files of that package)
+//
+// Output: JSON {"<arg>": {item: digest}, "closure:<dir>": {…}, "module": {…}}.
+//
+//   - anchored files: every type / var / const declaration, every function signature (receiver kind and parameter TYPES,
+//     not names), every function body (`:ctorbody` for constructors / option functions New*, new*, build*, default*,
+//     setup*, init*, With*, Use*, Range*; `:body` for the rest), the file's build constraints, package clause and
+//     imports, and the number of `/` and `%` operations with a non-literal divisor (a new division is a new way to
+//     panic that a total Lean model cannot see);
+//   - every other non-test file of the same package: a digest of the whole file (tokens, comments dropped);
+//   - hook files (verif_hooks.go, `//go:build verif`): a digest of the whole file — they are part of the harness build
+//     and must not be able to mask a defect;
+//   - any top-level declaration, in any file of these packages, whose name is a predeclared identifier (len, copy,
+//     append, recover, false, …): reported as `shadow:<name>`;
+//   - "closure": every package of this module imported (transitively) by the anchored packages — one digest per file;
+//   - "module": go.mod's require / replace / exclude directives, and every write to (or address-of) a package-level
+//     variable of an anchored or closure package from any other package of the module.
+//
+// bin/check compares this with the committed expectation meta/surface/<Cxx>.json on every run.
 package main
 
 import (
@@ -17,17 +31,56 @@ import (
 	"go/ast"
 	"go/parser"
 	"go/printer"
+	"go/scanner"
 	"go/token"
 	"os"
 	"path/filepath"
+	"regexp"
 	"sort"
+	"strconv"
 	"strings"
 )
+
+const modPath = "github.com/pinealctx/neptune"
+
+var universe = map[string]bool{}
+
+func init() {
+	for _, n := range strings.Fields(`append cap clear close complex copy delete imag len make max min new panic print println real recover
+		bool byte comparable complex64 complex128 error float32 float64 int int8 int16 int32 int64 rune string uint uint8
+		uint16 uint32 uint64 uintptr any true false iota nil`) {
+		universe[n] = true
+	}
+}
+
+// tokens renders source as its token stream (comments dropped, literals verbatim), one blank between tokens.
+func tokens(src []byte) string {
+	var sc scanner.Scanner
+	fs := token.NewFileSet()
+	file := fs.AddFile("", fs.Base(), len(src))
+	sc.Init(file, src, nil, 0)
+	var out []string
+	for {
+		_, tok, lit := sc.Scan()
+		if tok == token.EOF {
+			break
+		}
+		switch {
+		case tok == token.SEMICOLON && lit == "\n":
+			out = append(out, ";")
+		case lit != "":
+			out = append(out, lit)
+		default:
+			out = append(out, tok.String())
+		}
+	}
+	return strings.Join(out, " ")
+}
 
 func norm(fset *token.FileSet, n ast.Node) string {
 	var b bytes.Buffer
 	_ = printer.Fprint(&b, fset, n)
-	return strings.Join(strings.Fields(b.String()), " ")
+	return tokens(b.Bytes())
 }
 
 func sha(s string) string {
@@ -44,124 +97,12 @@ func recvOf(fd *ast.FuncDecl, fset *token.FileSet) string {
 
 func isCtor(name string) bool {
 	l := strings.ToLower(name)
-	return name == "init" || strings.HasPrefix(l, "new") || strings.HasPrefix(l, "build") || strings.HasPrefix(l, "default") || strings.HasPrefix(l, "setup") ||
-		strings.HasPrefix(l, "with") || strings.HasPrefix(l, "use") || strings.HasPrefix(l, "range")
-}
-
-func main() {
-	if len(os.Args) < 3 {
-		fmt.Fprintln(os.Stderr, "usage: surface <repo> <pkgdir>...")
-		os.Exit(2)
+	for _, p := range []string{"new", "build", "default", "setup", "init", "with", "use", "range"} {
+		if strings.HasPrefix(l, p) {
+			return true
+		}
 	}
-	repo := os.Args[1]
-	out := map[string]map[string]string{}
-	for _, arg := range os.Args[2:] {
-		// "dir" = whole package; "dir=a.go,b.go" = full surface of the listed (anchored) files, and for the other
-		// files of the package only their presence, build constraints and init functions
-		dir, anchored := arg, map[string]bool(nil)
-		if i := strings.Index(arg, "="); i >= 0 {
-			dir = arg[:i]
-			anchored = map[string]bool{}
-			for _, f := range strings.Split(arg[i+1:], ",") {
-				anchored[f] = true
-			}
-		}
-		items := map[string]string{}
-		ents, err := os.ReadDir(filepath.Join(repo, dir))
-		if err != nil {
-			items["!error"] = err.Error()
-			out[arg] = items
-			continue
-		}
-		var files []string
-		for _, e := range ents {
-			n := e.Name()
-			if e.IsDir() || !strings.HasSuffix(n, ".go") || strings.HasSuffix(n, "_test.go") {
-				continue
-			}
-			files = append(files, n)
-		}
-		sort.Strings(files)
-		for _, n := range files {
-			fset := token.NewFileSet()
-			f, err := parser.ParseFile(fset, filepath.Join(repo, dir, n), nil, parser.ParseComments)
-			if err != nil {
-				items["file:"+n] = "parse-error"
-				continue
-			}
-			// build constraints (comments before the package clause)
-			var cons []string
-			for _, cg := range f.Comments {
-				if cg.Pos() > f.Package {
-					break
-				}
-				for _, c := range cg.List {
-					if strings.HasPrefix(c.Text, "//go:build") || strings.HasPrefix(c.Text, "// +build") {
-						cons = append(cons, strings.TrimSpace(c.Text))
-					}
-				}
-			}
-			hook := n == "verif_hooks.go" && len(cons) == 1 && cons[0] == "//go:build verif"
-			if hook {
-				continue // the machinery's own add-only hook file, compiled only with the tag
-			}
-			var imps []string
-			for _, im := range f.Imports {
-				imps = append(imps, norm(fset, im))
-			}
-			sort.Strings(imps)
-			full := anchored == nil || anchored[n]
-			if full {
-				items["file:"+n] = sha(strings.Join(cons, ";") + "|" + f.Name.Name + "|" + strings.Join(imps, ","))
-			} else {
-				items["file:"+n] = sha(strings.Join(cons, ";") + "|" + f.Name.Name)
-			}
-			for _, d := range f.Decls {
-				if fd, ok := d.(*ast.FuncDecl); !full && !(ok && fd.Name.Name == "init" && fd.Recv == nil) {
-					continue
-				}
-				switch x := d.(type) {
-				case *ast.GenDecl:
-					if x.Tok == token.IMPORT {
-						continue
-					}
-					for _, sp := range x.Specs {
-						switch s := sp.(type) {
-						case *ast.TypeSpec:
-							items["type:"+s.Name.Name] = sha(norm(fset, s))
-						case *ast.ValueSpec:
-							var names []string
-							for _, id := range s.Names {
-								names = append(names, id.Name)
-							}
-							// iota-based constants depend on their position: include the whole group text
-							txt := norm(fset, s)
-							if x.Tok == token.CONST {
-								txt = norm(fset, x)
-							}
-							items[x.Tok.String()+":"+strings.Join(names, ",")] = sha(txt)
-						}
-					}
-				case *ast.FuncDecl:
-					key := "func:" + recvOf(x, fset) + x.Name.Name
-					sig := sigTypes(fset, x.Type) // parameter and result TYPES only: renaming a parameter is not a surface change
-					if x.Name.Name == "init" {
-						key = fmt.Sprintf("func:init@%s", n)
-					}
-					items[key+":sig"] = sha(recvOf(x, fset) + sig)
-					if isCtor(x.Name.Name) && x.Body != nil {
-						cf := *x
-						cf.Doc = nil
-						stripped := stripComments(fset, &cf)
-						items[key+":body"] = sha(stripped)
-					}
-				}
-			}
-		}
-		out[arg] = items
-	}
-	b, _ := json.MarshalIndent(out, "", " ")
-	fmt.Println(string(b))
+	return false
 }
 
 // sigTypes renders a function type by its parameter and result types, without names.
@@ -189,7 +130,318 @@ func sigTypes(fset *token.FileSet, ft *ast.FuncType) string {
 	return "func" + tp + "(" + list(ft.Params) + ")(" + list(ft.Results) + ")"
 }
 
-// stripComments prints a function without comments (go/printer only prints comments attached to the file).
-func stripComments(fset *token.FileSet, fd *ast.FuncDecl) string {
-	return norm(fset, fd.Body)
+func constraints(f *ast.File) []string {
+	var cons []string
+	for _, cg := range f.Comments {
+		if cg.Pos() > f.Package {
+			break
+		}
+		for _, c := range cg.List {
+			if strings.HasPrefix(c.Text, "//go:build") || strings.HasPrefix(c.Text, "// +build") {
+				cons = append(cons, strings.TrimSpace(c.Text))
+			}
+		}
+	}
+	return cons
+}
+
+func goFiles(repo, dir string) []string {
+	ents, err := os.ReadDir(filepath.Join(repo, dir))
+	if err != nil {
+		return nil
+	}
+	var files []string
+	for _, e := range ents {
+		n := e.Name()
+		if e.IsDir() || !strings.HasSuffix(n, ".go") || strings.HasSuffix(n, "_test.go") {
+			continue
+		}
+		files = append(files, n)
+	}
+	sort.Strings(files)
+	return files
+}
+
+// shadows adds an item for every top-level declaration named like a predeclared identifier.
+func shadows(items map[string]string, fset *token.FileSet, f *ast.File, file string) {
+	add := func(name string, n ast.Node) {
+		if universe[name] {
+			items["shadow:"+name+"@"+file] = sha(norm(fset, n))
+		}
+	}
+	for _, d := range f.Decls {
+		switch x := d.(type) {
+		case *ast.FuncDecl:
+			if x.Recv == nil {
+				add(x.Name.Name, x)
+			}
+		case *ast.GenDecl:
+			for _, sp := range x.Specs {
+				switch s := sp.(type) {
+				case *ast.TypeSpec:
+					add(s.Name.Name, s)
+				case *ast.ValueSpec:
+					for _, id := range s.Names {
+						add(id.Name, s)
+					}
+				}
+			}
+		}
+	}
+}
+
+func divmods(n ast.Node) int {
+	c := 0
+	ast.Inspect(n, func(x ast.Node) bool {
+		switch e := x.(type) {
+		case *ast.BinaryExpr:
+			if e.Op == token.QUO || e.Op == token.REM {
+				if _, lit := e.Y.(*ast.BasicLit); !lit {
+					c++
+				}
+			}
+		case *ast.AssignStmt:
+			if e.Tok == token.QUO_ASSIGN || e.Tok == token.REM_ASSIGN {
+				c++
+			}
+		}
+		return true
+	})
+	return c
+}
+
+// pkgItems computes the items of one package. anchored == nil: every file in full detail.
+func pkgItems(repo, dir string, anchored map[string]bool, digestOnly bool) (map[string]string, []string) {
+	items := map[string]string{}
+	var imports []string
+	files := goFiles(repo, dir)
+	if files == nil {
+		items["!error"] = "cannot read " + dir
+		return items, nil
+	}
+	for _, n := range files {
+		path := filepath.Join(repo, dir, n)
+		src, err := os.ReadFile(path)
+		if err != nil {
+			items["file:"+n] = "read-error"
+			continue
+		}
+		fset := token.NewFileSet()
+		f, err := parser.ParseFile(fset, path, src, parser.ParseComments)
+		if err != nil {
+			items["file:"+n] = "parse-error"
+			continue
+		}
+		for _, im := range f.Imports {
+			if p, err := strconv.Unquote(im.Path.Value); err == nil {
+				imports = append(imports, p)
+			}
+		}
+		cons := constraints(f)
+		shadows(items, fset, f, n)
+		isHook := n == "verif_hooks.go"
+		full := !digestOnly && !isHook && (anchored == nil || anchored[n])
+		if !full {
+			kind := "digest:"
+			if isHook {
+				kind = "hook:"
+			}
+			items[kind+n] = sha(strings.Join(cons, ";") + "|" + tokens(src))
+			continue
+		}
+		var imps []string
+		for _, im := range f.Imports {
+			imps = append(imps, norm(fset, im))
+		}
+		sort.Strings(imps)
+		items["file:"+n] = sha(strings.Join(cons, ";") + "|" + f.Name.Name + "|" + strings.Join(imps, ","))
+		items["divmod:"+n] = strconv.Itoa(divmods(f))
+		blank, inits := 0, 0
+		for _, d := range f.Decls {
+			switch x := d.(type) {
+			case *ast.GenDecl:
+				if x.Tok == token.IMPORT {
+					continue
+				}
+				for _, sp := range x.Specs {
+					switch s := sp.(type) {
+					case *ast.TypeSpec:
+						items["type:"+s.Name.Name] = sha(norm(fset, s))
+					case *ast.ValueSpec:
+						var names []string
+						for _, id := range s.Names {
+							names = append(names, id.Name)
+						}
+						key := strings.Join(names, ",")
+						if key == "_" {
+							blank++
+							key = fmt.Sprintf("_#%d@%s", blank, n)
+						}
+						txt := norm(fset, s)
+						if x.Tok == token.CONST {
+							txt = norm(fset, x) // iota-based constants depend on their position in the group
+						}
+						items[x.Tok.String()+":"+key] = sha(txt)
+					}
+				}
+			case *ast.FuncDecl:
+				key := "func:" + recvOf(x, fset) + x.Name.Name
+				if x.Name.Name == "init" && x.Recv == nil {
+					inits++
+					key = fmt.Sprintf("func:init#%d@%s", inits, n)
+				}
+				items[key+":sig"] = sha(recvOf(x, fset) + sigTypes(fset, x.Type))
+				if x.Body != nil {
+					kind := ":body"
+					if isCtor(x.Name.Name) {
+						kind = ":ctorbody"
+					}
+					items[key+kind] = sha(norm(fset, x.Body))
+				}
+			}
+		}
+	}
+	return items, imports
+}
+
+var writeRe = regexp.MustCompile(`^\w+$`)
+
+// extWrites finds writes to (or address-of) package-level variables of the target packages from other packages.
+func extWrites(repo string, targets map[string]bool) map[string]string {
+	items := map[string]string{}
+	_ = filepath.Walk(repo, func(path string, info os.FileInfo, err error) error {
+		if err != nil {
+			return nil
+		}
+		if info.IsDir() {
+			if info.Name() == ".git" || info.Name() == "vendor" || info.Name() == "testdata" {
+				return filepath.SkipDir
+			}
+			return nil
+		}
+		if !strings.HasSuffix(path, ".go") || strings.HasSuffix(path, "_test.go") {
+			return nil
+		}
+		rel, _ := filepath.Rel(repo, path)
+		dir := filepath.ToSlash(filepath.Dir(rel))
+		fset := token.NewFileSet()
+		f, err := parser.ParseFile(fset, path, nil, parser.SkipObjectResolution)
+		if err != nil {
+			return nil
+		}
+		alias := map[string]string{}
+		for _, im := range f.Imports {
+			p, _ := strconv.Unquote(im.Path.Value)
+			if !strings.HasPrefix(p, modPath+"/") {
+				continue
+			}
+			d := strings.TrimPrefix(p, modPath+"/")
+			if !targets[d] || d == dir {
+				continue
+			}
+			name := d[strings.LastIndex(d, "/")+1:]
+			if im.Name != nil {
+				name = im.Name.Name
+			}
+			alias[name] = d
+		}
+		if len(alias) == 0 {
+			return nil
+		}
+		note := func(e ast.Expr, how string) {
+			if s, ok := e.(*ast.SelectorExpr); ok {
+				if id, ok := s.X.(*ast.Ident); ok && alias[id.Name] != "" && writeRe.MatchString(s.Sel.Name) {
+					items["extwrite:"+filepath.ToSlash(rel)+":"+alias[id.Name]+"."+s.Sel.Name+":"+how] = "1"
+				}
+			}
+		}
+		ast.Inspect(f, func(n ast.Node) bool {
+			switch x := n.(type) {
+			case *ast.AssignStmt:
+				for _, l := range x.Lhs {
+					note(l, "assign")
+				}
+			case *ast.IncDecStmt:
+				note(x.X, "incdec")
+			case *ast.UnaryExpr:
+				if x.Op == token.AND {
+					note(x.X, "addr")
+				}
+			}
+			return true
+		})
+		return nil
+	})
+	return items
+}
+
+func main() {
+	if len(os.Args) < 3 {
+		fmt.Fprintln(os.Stderr, "usage: surface <repo> <pkgdir>...")
+		os.Exit(2)
+	}
+	repo := os.Args[1]
+	out := map[string]map[string]string{}
+	anchoredDirs := map[string]bool{}
+	var queue []string
+	for _, arg := range os.Args[2:] {
+		dir, anchored := arg, map[string]bool(nil)
+		if i := strings.Index(arg, "="); i >= 0 {
+			dir = arg[:i]
+			anchored = map[string]bool{}
+			for _, f := range strings.Split(arg[i+1:], ",") {
+				anchored[f] = true
+			}
+		}
+		items, imports := pkgItems(repo, dir, anchored, false)
+		out[arg] = items
+		anchoredDirs[dir] = true
+		queue = append(queue, imports...)
+	}
+	// import closure inside the module
+	seen := map[string]bool{}
+	for len(queue) > 0 {
+		p := queue[0]
+		queue = queue[1:]
+		if !strings.HasPrefix(p, modPath+"/") {
+			continue
+		}
+		d := strings.TrimPrefix(p, modPath+"/")
+		if seen[d] || anchoredDirs[d] {
+			continue
+		}
+		seen[d] = true
+		items, imports := pkgItems(repo, d, nil, true)
+		out["closure:"+d] = items
+		queue = append(queue, imports...)
+	}
+	// module level
+	mod := map[string]string{}
+	if b, err := os.ReadFile(filepath.Join(repo, "go.mod")); err == nil {
+		var keep []string
+		for _, l := range strings.Split(string(b), "\n") {
+			l = strings.TrimSpace(l)
+			if i := strings.Index(l, "//"); i >= 0 {
+				l = strings.TrimSpace(l[:i])
+			}
+			if l == "" || strings.HasPrefix(l, "go ") || strings.HasPrefix(l, "module ") || strings.HasPrefix(l, "toolchain ") {
+				continue
+			}
+			keep = append(keep, strings.Join(strings.Fields(l), " "))
+		}
+		mod["gomod:require-replace-exclude"] = sha(strings.Join(keep, "\n"))
+	}
+	targets := map[string]bool{}
+	for d := range anchoredDirs {
+		targets[d] = true
+	}
+	for d := range seen {
+		targets[d] = true
+	}
+	for k, v := range extWrites(repo, targets) {
+		mod[k] = v
+	}
+	out["module"] = mod
+	b, _ := json.MarshalIndent(out, "", " ")
+	fmt.Println(string(b))
 }
